@@ -148,6 +148,7 @@ def ensure_model():
 # ----------------------------------------------------------------------------------
 def ensure_harness(tier, profiles=("debug", "release")):
     """cargo build of the harness bins against /repo's working tree.
+    tier: quick | thorough | noalloc (any_vec built with default features disabled).
     Returns (routing, {profile: bindir})."""
     rc, out = sh([sys.executable, os.path.join(HARNESS, "gen_bins.py"), tier], cwd=HARNESS)
     if rc != 0:
@@ -156,13 +157,16 @@ def ensure_harness(tier, profiles=("debug", "release")):
     lock = os.path.join(HARNESS, "Cargo.lock")
     if not os.path.exists(lock):
         sh("cargo generate-lockfile --offline", cwd=HARNESS)
+    bins = " ".join("--bin %s" % b for b in sorted(set(routing.values())))
     dirs = {}
     for prof in profiles:
         flag = "--release" if prof == "release" else ""
-        rc, out = sh("timeout 3000 cargo build --offline %s 2>&1" % flag, cwd=HARNESS)
+        if tier == "noalloc":
+            flag += " --no-default-features --features noalloc --target-dir target-noalloc"
+        rc, out = sh("timeout 3000 cargo build --offline %s %s 2>&1" % (flag, bins), cwd=HARNESS)
         if rc != 0:
-            raise BuildBroken("harness does not compile against /repo (%s)" % prof, out[-6000:])
-        dirs[prof] = os.path.join(HARNESS, "target", prof)
+            raise BuildBroken("harness does not compile against /repo (%s, %s)" % (tier, prof), out[-6000:])
+        dirs[prof] = os.path.join(HARNESS, "target-noalloc" if tier == "noalloc" else "target", prof)
     return routing, dirs
 
 # ----------------------------------------------------------------------------------
